@@ -418,6 +418,8 @@ func (v *Verifier) structural(cfg PropConfig, sc StructuralCheck) []StructResult
 		return v.eventLoggedOnce(cfg, sc)
 	case "globals_init_only":
 		return v.globalsInitOnly(cfg, sc)
+	case "callers_verified":
+		return v.callersVerified(cfg, sc)
 	case "reslice_append":
 		return v.resliceAppend(cfg, sc)
 	case "typeinv_writers":
